@@ -1362,7 +1362,11 @@ def search_history(polar0, ops, hook, res, seed, mode, report=True):
                 cls_r, cls_i = ora.cls(c + "r", names), ora.cls(c + "i", names)
                 only_cplx = c in ora.cplx_tie and all(m[:-1] in ora.cplx_tie and m.endswith(sfx)
                                                       for cl, sfx in ((cls_r, "r"), (cls_i, "i")) for m in cl)
-                if (len(cls_r) > 1 or len(cls_i) > 1) and not only_cplx:
+                if k == "stdc" and (len(cls_r) > 1 or len(cls_i) > 1) and not only_cplx:
+                    # standard_complex is written to SKIP complex parameters with a tied part (every member of the tie group,
+                    # its head included): not the listed finding about the explicit coordinate operations
+                    key = "standard_complex:tied-part:value-changed"
+                elif (len(cls_r) > 1 or len(cls_i) > 1) and not only_cplx:
                     key = "tied-part:coordinate-op-changes-value"
                 elif c in ora.cplx_tie and len(cls_r) >= 3:
                     # only a chain of complex ties (>= 3 names) leaves separate same_list groups on the unchanged tree
@@ -1600,6 +1604,23 @@ KNOWN_INPUTS = {
 #  MC set_same(cplx): the i-part call of same_real gets no followers           -> correspondence (mixed history) + search on MC:cplx-merge-two-groups
 #  MD set_same: `for i in tmp_list[:-1]` (last member of the last merged group dropped) -> correspondence + search set_same:merge:follower-not-rebound
 REGRESSION_INPUTS = {
+    # seeded change C16-04: standard_complex must leave EVERY member of a part-wise tie alone, the group's head included
+    # (standardising the head alone flips the sign of the partners that share its radius / phase)
+    "C16-04:share-r-negative-radius-stdc": (True, [
+        {"k": "ac", "name": "a", "polar": True, "tr": True, "fix_vals": [1.0, 0.0]},
+        {"k": "ac", "name": "b", "polar": True, "tr": True, "fix_vals": [1.0, 0.0]},
+        {"k": "ac", "name": "c", "polar": True, "tr": True, "fix_vals": [1.0, 0.0]},
+        {"k": "share", "names": ["a", "b", "c"]},
+        {"k": "sad", "d": {"ar": -1.3, "ai": 0.4, "bi": 2.0, "ci": -2.5}, "vif": False},
+        {"k": "stdc"},
+        {"k": "gad", "tonly": False}]),
+    "C16-04:same-phase-negative-radius-stdc": (True, [
+        {"k": "ac", "name": "a", "polar": True, "tr": True, "fix_vals": [1.0, 0.0]},
+        {"k": "ac", "name": "b", "polar": True, "tr": True, "fix_vals": [1.0, 0.0]},
+        {"k": "same", "names": ["ai", "bi"], "cplx": False},
+        {"k": "sad", "d": {"ar": -0.7, "ai": 1.1, "br": 2.0}, "vif": False},
+        {"k": "stdc"},
+        {"k": "gad", "tonly": False}]),
     "C16-01:free-first-fixed-second-refresh": (True, [
         {"k": "ac", "name": "F", "polar": None, "tr": True, "fix_vals": [1.0, 0.0]},
         {"k": "ac", "name": "X", "polar": None, "tr": False, "fix_vals": [1.5, 0.5]},
